@@ -1,7 +1,7 @@
 """C01 — EBNF-to-grammar translation preserves the language of every rule."""
 from .speccommon import *
 
-LEVEL = "other"
+LEVEL = "proof"
 K = 4
 
 
